@@ -164,6 +164,14 @@ theorem encodeMap_mono_on (C1 C2 : Codec V) : ∀ (fuel : Nat) (kvs : List (Key 
         · cases h
         · cases h
 
+/-- the decoder looks at the type of the root cell only to tell a pruned branch / a library cell -/
+theorem unmarshal_root_irrel (C : Codec V) (n : Nat) (ty m ty' m' : Nat) (bits : List Bool) (refs : List Cell)
+    (h1 : ty ≠ tyPruned) (h2 : ty ≠ tyLibrary) (h1' : ty' ≠ tyPruned) (h2' : ty' ≠ tyLibrary) :
+    unmarshal C n (.mk ty m bits refs) = unmarshal C n (.mk ty' m' bits refs) := by
+  unfold unmarshal
+  simp only [Cell.ty, h2, h2', ↓reduceIte]
+  simp only [mapInner, h1, h1', h2, h2', ↓reduceIte]
+
 theorem mem_insertKV (x : Key × V) : ∀ (l : List (Key × V)) (y), y ∈ insertKV x l → y = x ∨ y ∈ l
   | [], y, h => by simpa [insertKV] using h
   | z :: zs, y, h => by
